@@ -152,7 +152,7 @@ def ulp(x):
 
 # --------------------------------------------------------------------------- RNG seam
 
-_NP_NAMES = ("randint", "uniform", "choice", "seed")
+_NP_NAMES = ("randint", "uniform", "choice", "seed", "random", "random_sample", "rand")
 
 
 def shape_randint(tok, lo, hi):
@@ -179,7 +179,12 @@ def shape_uniform(tok, lo, hi):
         return math.nextafter(hi, lo)
     if isinstance(tok, str):
         tok = 0.5
-    return lo + (hi - lo) * tok
+    v = lo + (hi - lo) * tok
+    # only legal outcomes of numpy.random.uniform: lo + fl(hi - lo) can exceed hi by an ulp (e.g. [-3.1, 5.7]); NumPy documents
+    # values in [low, high) with high possibly included through rounding, never beyond
+    if lo <= hi:
+        v = min(max(v, lo), hi)
+    return v
 
 
 def shape_choice(tok, n, p):
@@ -260,6 +265,8 @@ class Seam:
             if self.pos < len(self.src):
                 tok = self.src[self.pos]
                 self.pos += 1
+                if isinstance(tok, (int, float)) and not (0.0 <= tok < 1.0):
+                    tok = min(max(float(tok), 0.0), math.nextafter(1.0, 0.0))   # a unit draw is in [0, 1)
             else:
                 tok = 0.5
                 self.exhausted += 1
@@ -362,6 +369,43 @@ class Seam:
         v = arr[idx]
         return np.int64(v) if isinstance(v, int) else v
 
+    def _unit(self):
+        """One draw from [0, 1) for np.random.random / random_sample / rand (not used by the pinned tree; owned so that code
+        which moves to them still meets the scripted policies: 0.0 and the float just below 1 are legal outcomes)."""
+        tok = self._next("uniform")
+        if tok == "lo":
+            return 0.0
+        if tok == "lo+":
+            return 5e-324
+        if tok in ("hi", "hi-"):
+            return math.nextafter(1.0, 0.0)
+        if isinstance(tok, str):
+            return 0.5
+        return float(tok)
+
+    def _random(self, size=None):
+        self.calls += 1
+        self.sites[self._site()] += 1
+        if self.mode == "real":
+            v = self._orig["random"](size)
+            self.tokens.append(["random", size if size is None or isinstance(size, int) else list(size)])
+            return v
+        if size is None:
+            return self._unit()
+        shape = (int(size),) if isinstance(size, (int, np.integer)) else tuple(int(x) for x in size)
+        n = 1
+        for x in shape:
+            n *= x
+        return np.array([self._unit() for _ in range(n)], dtype=float).reshape(shape)
+
+    def _rand(self, *dims):
+        if self.mode == "real":
+            self.calls += 1
+            self.sites[self._site()] += 1
+            self.tokens.append(["rand", list(dims)])
+            return self._orig["rand"](*dims)
+        return self._random(dims if dims else None)
+
     def _seed(self, s=None):
         if self.mode == "real":
             self._orig["seed"](s)
@@ -373,6 +417,9 @@ class Seam:
         np.random.uniform = self._uniform
         np.random.choice = self._choice
         np.random.seed = self._seed
+        np.random.random = self._random
+        np.random.random_sample = self._random
+        np.random.rand = self._rand
         # the real global generator is always put into a state that depends on the scenario only, so that
         # np.random functions the seam does not own (rand, normal, ...) are reproducible too
         if self.mode == "real":
@@ -616,6 +663,18 @@ def make_reward_fn(spec, domain):
             if -128 <= iv <= 127:
                 return np.int8(iv)
             return float(v)
+        if t == "L":
+            # exact integers far beyond 2^53 (amounts in the smallest unit, fixed-point scores): neighbours differ by less
+            # than the spacing of doubles there, so any detour through float() makes different rewards look equal
+            return int(spec.get("bigsign", 1)) * (1 << 60) + int(round(v * 300))
+        if t == "6":
+            # 16-bit scores: a running total in the reward's own type wraps after a few hundred rounds
+            iv = int(round(v))
+            return np.int16(iv) if -32768 <= iv <= 32767 else float(v)
+        if t == "I":
+            return np.int64(int(round(v))) if abs(v) < 1e15 else float(v)
+        if t == "p":
+            return bool(v > 0.5)
         if t == "i":
             return int(round(v)) if abs(v) < 1e15 else float(v)
         if t == "n":
@@ -631,8 +690,12 @@ def tag(v):
         return ["u8", int(v)]
     if isinstance(v, np.int8):
         return ["i8", int(v)]
+    if isinstance(v, np.int16):
+        return ["i16", int(v)]
+    if isinstance(v, np.int64):
+        return ["i64", int(v)]
     if isinstance(v, (bool,)):
-        return ["f", float(v)]
+        return ["pb", bool(v)]
     if isinstance(v, int):
         return ["i", v]
     if isinstance(v, np.floating):
@@ -650,6 +713,12 @@ def untag(tv):
         return np.uint8(v)
     if t == "i8":
         return np.int8(v)
+    if t == "i16":
+        return np.int16(v)
+    if t == "i64":
+        return np.int64(v)
+    if t == "pb":
+        return bool(v)
     if t == "i":
         return int(v)
     if t == "n":
